@@ -6,13 +6,15 @@ from hypothesis import strategies as st
 from vf.core import CaseResult, dtype_mode
 
 PROPERTY = "C11"
-RULE = ("NaiveLinear (both inits) / LULinear (both) / QRLinear / SVDLinear (both) / HouseholderSequence x features 1-8 x Householder "
+RULE = ("NaiveLinear (both inits) / LULinear (both) / QRLinear / SVDLinear (both) / HouseholderSequence x features 1-8 (and 32/64/128) x Householder "
         "counts 1..2*features+3 (odd, even, > features; SVD even) x parameter state (fresh; perturbed sigma 0.1-1; reflection "
         "vectors rescaled by 1e-4..1e2; bias != 0) x float64 and float32 x cache on/off. numpy float64 reference: W = weight(); "
         "forward(x) = x W^T + b; inverse(y) = (y-b) W^-T; W weight_inverse() = I; logabsdet() = slogdet(W); the combined "
         "accessors equal the separate ones; Householder: matrix()^T matrix() = I, forward(x) = x matrix()^T, log-det 0; every "
         "constructor call that returns yields finite parameters and a finite invertible W. Non-trivial: W is neither identity "
-        "nor diagonal. Distinct = distinct case JSON.")
+        "nor diagonal. Weights also scaled by 1e-3 .. 1e3 (|det| leaves the float range, log|det| does not); optionally the object first "
+        "makes a cached evaluation-mode call, has its cache switched off and returns to training mode before the parameters change. "
+        "Distinct = distinct case JSON.")
 ASSUMPTIONS = ["numpy.linalg (slogdet, inv, cond) as reference", "tolerances scale with cond(W); cond > 1e8 is inconclusive"]
 EXPLANATION = "generated; the (class, features<=8, householder count) grid is covered many times over"
 
@@ -24,15 +26,16 @@ def budget(tier):
 @st.composite
 def _case(draw):
     cls = draw(st.sampled_from(["naive", "lu", "qr", "svd", "householder"]))
-    f = draw(st.integers(1, 8))
-    nh = draw(st.integers(1, 2 * f + 3))
+    f = draw(st.integers(1, 8)) if draw(st.integers(0, 11)) else draw(st.sampled_from([32, 64, 128]))
+    nh = draw(st.integers(1, 2 * f + 3)) if f <= 8 else draw(st.sampled_from([1, 4, 9]))
     if cls == "svd":
         nh = 2 * max(1, nh // 2)
     return {"cls": cls, "features": f, "nh": nh, "init": draw(st.booleans()), "cache": draw(st.booleans()),
             "state": draw(st.sampled_from(["fresh", "perturbed", "perturbed", "qscale", "sgd"])), "sigma": draw(st.sampled_from([0.1, 0.5, 1.0])),
             "qscale": draw(st.sampled_from([1e-4, 1e-3, 1e-2, 0.1, 10.0, 100.0])), "bias": draw(st.booleans()),
             "precise": draw(st.sampled_from([True, True, False])), "seed": draw(st.integers(0, 10 ** 6)), "eval": draw(st.booleans()),
-            "first": draw(st.sampled_from(["forward", "inverse"]))}
+            "first": draw(st.sampled_from(["forward", "inverse"])), "wscale": draw(st.sampled_from([1.0, 1.0, 1.0, 1e-3, 1e3, 30.0])),
+            "prelude": draw(st.sampled_from([None, None, "cached_call_then_cache_off"]))}
 
 
 def case_strategy(tier):
@@ -66,6 +69,18 @@ def run_case(case):
         res.labels += ["cls:" + cls, "state:" + case["state"], "dtype:%s" % ("f64" if case["precise"] else "f32"),
                        "nh>%s" % ("f" if case["nh"] > f else "=<f") if cls in ("qr", "svd", "householder") else "nh:-"]
         gen = torch.Generator().manual_seed(case["seed"] + 1)
+        prelude = case.get("prelude") and cls != "householder"
+        if prelude:
+            # the object has a past: a cached evaluation-mode call, caching switched off, back to training mode - the parameter
+            # changes below then happen "during training"; afterwards evaluation mode and caching are switched on again
+            with torch.no_grad():
+                m.eval()
+                m.use_cache(True)
+                x0 = torch.randn(2, f, generator=gen, dtype=torch.float64).to(dtype)
+                (m(x0) if case["first"] == "forward" else m.inverse(x0))
+                m.use_cache(False)
+                m.train()
+            res.labels.append("prelude")
         with torch.no_grad():
             for n, p in m.named_parameters():
                 if not bool(torch.isfinite(p).all()):
@@ -88,8 +103,20 @@ def run_case(case):
             y, ld = m(x)
             (y.pow(2).mean() - ld.mean()).backward()
             opt.step()
-        if case["eval"]:
+        if case.get("wscale", 1.0) != 1.0 and cls in ("naive", "svd", "lu"):
+            # |det W| far from 1 (log|det| = features * log(scale)): the determinant itself leaves the float range, its logarithm does not
+            with torch.no_grad():
+                if cls == "naive":
+                    m._weight.mul_(case["wscale"])
+                elif cls == "svd":
+                    m.unconstrained_diagonal.add_(float(np.log(case["wscale"])))     # diagonal = exp-type of this parameter
+                else:
+                    m.unconstrained_upper_diag.add_(float(np.log(case["wscale"])))
+            res.labels.append("wscale:%g" % case["wscale"])
+        if case["eval"] or prelude:
             m.eval()
+        if prelude:
+            m.use_cache(True)
         x = torch.randn(3, f, generator=gen, dtype=torch.float64).to(dtype)
         xn = x.double().numpy()
 
